@@ -103,6 +103,26 @@ func c14Menu(initial int) []c14Doc {
 			out = append(out, c14Doc{Name: "F-" + f.name + "-after-" + p.name, SDL: p.sdl + f.sdl})
 		}
 	}
+	// an extension that fails INSIDE: it brings a new member first and a clash second, so part of it has been applied to the
+	// extended (shared, pre-existing) type when the clash is met - for every kind of extensible type the root holds
+	existing := map[bool]string{true: "x", false: "i"}[initial == 2]
+	inside := []struct{ name, sdl string }{
+		{"extend-object-new-member-then-duplicate", "extend type " + q + " { fresh1: Int " + existing + ": Int }\n"},
+	}
+	if initial == 1 {
+		inside = append(inside, []struct{ name, sdl string }{
+			{"extend-enum-new-value-then-duplicate", "extend enum Color { FRESH RED }\n"},
+			{"extend-union-new-member-then-duplicate", "extend union AB = Ev | A\n"},
+			{"extend-input-new-field-then-duplicate", "extend input Filter { fresh: Int min: Int }\n"},
+			{"extend-interface-new-field-then-duplicate", "extend interface Named { fresh: Int name: String }\n"},
+			{"extend-object-new-interface-then-duplicate-field", "extend type Ev implements Named { fresh: Int n: Int }\n"},
+		}...)
+	}
+	for _, f := range inside {
+		for _, p := range prefixes[:2] {
+			out = append(out, c14Doc{Name: "F-" + f.name + "-after-" + p.name, SDL: p.sdl + f.sdl})
+		}
+	}
 	out = append(out, c14Doc{Name: "F-addtypes-undefined-reference", AddTypes: func() []ggql.Type {
 		o := &ggql.Object{Base: ggql.Base{N: "AT1"}}
 		_ = o.AddField(&ggql.FieldDef{Base: ggql.Base{N: "ok"}, Type: &ggql.Ref{Base: ggql.Base{N: "Int"}}})
